@@ -281,6 +281,9 @@ def run(ctx):
                 % ("/".join(str(p[2]) for p in plans), n_exh, "complete" if complete else "cut short", done, len(CC.VOCAB), CC.TTLS))
     res.rule = res.rule.replace("@NWIRE@", str(n_wire))
     res.sample({"history": run_.histories, "example_ops": [["D", CC.T0, [CC.inst(_T1, 1, 0), CC.inst(_T1, 1, 0)], []], ["D", CC.T0 + 999, [CC.inst(_T1, 1, 0)], []], ["X", CC.T0 + 1000]]})
+    if any("cut short" in n or "stopped after" in n for n in res.notes):
+        # a stream was cut by the wall-clock budget (a loaded machine): the run is not the complete plan; the note says which stream
+        res.exhaustive = False
     res.count("wall_s", int(time.time() - t0))
     return res
 
